@@ -699,6 +699,7 @@ type Offer struct {
 	ID      bc.Hash
 	Find    *account.UTXO // the utxo findUtxos(…, true, …) lists, nil when it lists none
 	Reserve *account.UTXO // the utxo ReserveParticular(id, true, …) reserves, nil when it refuses
+	Amount  *account.UTXO // the utxo a Reserve(account, BTM, everything offered, true, vote, …) holds for the id
 	InDB    bool          // the wallet holds a confirmed record of the output
 	InMap   bool          // the keeper's unconfirmed map holds a copy of the output
 }
@@ -721,6 +722,27 @@ func (wn *WalletNode) OffersUnconfirmed(list []Rec) []Offer {
 	}
 	for id, u := range wn.matureSet(true) {
 		get(id).Find = u
+	}
+	// Reserve by amount: ask every (account, vote) for all that findUtxos offers it
+	for a := 1; a <= 2; a++ {
+		for _, vote := range [][]byte{nil, wn.Env.VoteTo} {
+			us, _ := wn.Keeper.VerifFindUtxos(wn.AcctID[a], consensus.BTMAssetID, true, vote)
+			var sum uint64
+			for _, u := range us {
+				sum += u.Amount
+			}
+			if sum == 0 {
+				continue
+			}
+			res, err := wn.Keeper.Reserve(wn.AcctID[a], consensus.BTMAssetID, sum, true, vote, time.Now().Add(time.Minute))
+			if err != nil {
+				continue
+			}
+			for _, u := range res.UTXOs {
+				get(u.OutputID).Amount = u
+			}
+			wn.Keeper.Cancel(res.ID)
+		}
 	}
 	var os []Offer
 	for id, o := range m {
